@@ -208,6 +208,22 @@ impl<'a> World<'a> {
         }
     }
 
+    /// A growth-rule / class-bound finding is only meaningful if the oracle's flush() really
+    /// brought the files up to date: if dropping every handle still changes the files, the
+    /// flush was incomplete (a durability matter, property C03) and the run is inconclusive.
+    fn blame_flush_growth(&mut self, m: usize, v: Violation) -> Stop {
+        let before = self.images(m).map(|i| [i[0].digest(), i[1].digest(), i[2].digest()]);
+        if self.close_all().is_err() {
+            return Stop::Violation(v);
+        }
+        let after = self.images(m).map(|i| [i[0].digest(), i[1].digest(), i[2].digest()]);
+        if before != after {
+            Stop::Inconclusive(format!("flush() had not brought the files up to date ({}); durability is property C03", v.signature))
+        } else {
+            Stop::Violation(v)
+        }
+    }
+
     fn flush_quiet(&mut self, hd: &mut dyn DynMap) -> StepResult {
         let r = self.call("flush", |_| hd.flush())?;
         match r {
@@ -743,12 +759,15 @@ pub fn run_once_until(ep: &Episode, env: &Env, dirbase: &'static str, only_updat
                     w.handles[h as usize] = Some((mm, hd));
                     match r {
                         Err(Stop::Violation(v)) if v.class == "decoder" => return Err(w.blame_flush(m, v)),
+                        Err(Stop::Violation(v)) if v.class == "growth" || v.class == "neighbour" => return Err(w.blame_flush_growth(m, v)),
                         // a structural finding that is not this property's: no decoded state to
                         // compare the next step with; the API-level audit decides right away
                         Err(Stop::Inconclusive(s)) if s.starts_with("out-of-scope:") => {
                             w.stats.probe("decoder-finding-outside-scope");
                             w.maps[m].last = None;
                             w.maps[m].last_imgs = None;
+                            // a state went by unobserved: the peak-based class bound is void
+                            w.maps[m].bound_void = true;
                             if ep.checks.model {
                                 w.audit_map(m)?;
                             }
